@@ -133,7 +133,7 @@ def make_model_class():
     return ScriptedModel
 
 
-def ref_solve_t(script, start, check, *, min_iter, max_iter, tol, failures, errors, cfe, before_fault=None, after_fault=None):
+def ref_solve_t(script, start, check, *, min_iter, max_iter, tol, failures, errors, cfe, before_fault=None, after_fault=None, scale=None):
     """The statement of C02/C06 as an executable model.
 
     script: list of (oA, oB); start: {'A': v, 'B': v} values at t after any offset copy
@@ -142,6 +142,7 @@ def ref_solve_t(script, start, check, *, min_iter, max_iter, tol, failures, erro
     cause, status, iterations, evals, befores, afters, stored {'A','B'}; a value of None
     means "not specified by the statement" and is not compared."""
     out = dict(evals=0, befores=0, afters=0, after_iteration=None)
+    scale = tol if scale is None else scale      # size of the scripted moves; `tol` is what the solver is asked to converge to
     stored = dict(start)
     nonfin = lambda vals: any(not math.isfinite(v) for v in vals)  # noqa: E731
 
@@ -172,7 +173,7 @@ def ref_solve_t(script, start, check, *, min_iter, max_iter, tol, failures, erro
             if o == 'warn' and strict:
                 # the warning-producing statement does not store its result
                 return done(kind='exc', value='SolutionError', cause='RuntimeWarning', status='E', iterations=k)
-            stored[name] = apply_outcome(stored[name], o, tol)
+            stored[name] = apply_outcome(stored[name], o, scale)
         new = [stored[c] for c in check]
         if nonfin(prev):
             view = new
@@ -201,12 +202,28 @@ def ref_solve_t(script, start, check, *, min_iter, max_iter, tol, failures, erro
     return done(kind='ret', value=False, status='F', iterations=max_iter)
 
 
+SPAN_KINDS = ['range', 'range', 'range', 'tuples', 'strings', 'mixed', 'percent-strings']
+
+
+def make_span(kind, n):
+    """Spans for the scripted single-period runs: the period *labels* (which end up in messages, never in the arithmetic) vary."""
+    if kind == 'tuples':
+        return [(2000 + i // 4, i % 4 + 1) for i in range(n)]
+    if kind == 'strings':
+        return [f'p{i}' for i in range(n)]
+    if kind == 'mixed':
+        return [None, (1,), 'x y', 2.5, frozenset({3}), b'b', True, ()][:n] + [f'q{i}' for i in range(max(0, n - 8))]
+    if kind == 'percent-strings':
+        return [f'{i}%s {{}} %d' for i in range(n)]
+    return range(n)
+
+
 def run_solve_t(Model, case):
     """Run one scripted single-period solve on the real solver and collect observations."""
     n = case.get('n', 4)
     t = case['t']
     tn = t if t >= 0 else t + n
-    m = Model(range(n), script=[tuple(p) for p in case['script']], tol=case['tol'], X=1.0,
+    m = Model(make_span(case.get('span_kind'), n), script=[tuple(p) for p in case['script']], tol=case['tol'], X=1.0,
               before_fault=case.get('before_fault'), after_fault=case.get('after_fault'))
     if case.get('check') is not None:
         m.check = list(case['check'])
@@ -227,7 +244,7 @@ def run_solve_t(Model, case):
         m.status[:] = case['prior_record'][0]
         m.iterations[:] = case['prior_record'][1]
     before = snapshot_model(m)
-    kw = dict(min_iter=case['min_iter'], max_iter=case['max_iter'], tol=case['tol'], failures=case['failures'],
+    kw = dict(min_iter=case['min_iter'], max_iter=case['max_iter'], tol=case.get('solver_tol', case['tol']), failures=case['failures'],
               errors=case['errors'], catch_first_error=case['cfe'])
     if case.get('offset'):
         kw['offset'] = case['offset']
